@@ -9,7 +9,8 @@ X = ['Num', 'LeftParen', 'RightParen', 'RightFloor', 'RightCeiling', 'Caret', 'S
 
 def lefts():
     return {'num': [['Num']], 'group': [['LeftParen'], ['Num'], ['RightParen']], 'floor': [['LeftFloor'], ['Num'], ['RightFloor']],
-            'call': [['ExplicitFunction:Abs', 'ExplicitFunction:Sqrt'], ['LeftParen'], ['Num'], ['RightParen']], 'fact': [['Num'], ['ExclamationMark']]}
+            'call': [['ExplicitFunction:Abs', 'ExplicitFunction:Sqrt'], ['LeftParen'], ['Num'], ['RightParen']], 'fact': [['Num'], ['ExclamationMark']],
+            'call0': [['ExplicitFunction:Avg'], ['LeftParen'], ['RightParen']], 'call2': [['ExplicitFunction:Max', 'ExplicitFunction:Pow'], ['LeftParen'], ['Num'], ['Comma'], ['Num'], ['RightParen']]}
 
 
 def obligations(ctx):
@@ -24,6 +25,7 @@ def obligations(ctx):
                 for ln, left in lefts().items():
                     for m in tails:
                         if pn == 'arg' and m == 0: continue
+                        if ln in ('call0', 'call2') and (m > 2 or pn not in ('none', 'binop')): continue
                         pos = pre + left + [RFIRST] + [X] * m
                         obs.append(ParserOb('C12', ev, None, oc=oc, positions=pos, label='%s/juxt/%s-%s-tail%d/%s' % (ev, pn, ln, m, tag)))
     return obs
@@ -31,7 +33,7 @@ def obligations(ctx):
 
 def run(ctx):
     results = run_obligations(ctx, obligations(ctx))
-    bounds = dict(layer='P: the five real parsers over template token streams  <context> L R-start t1..tm : L in {number, ( ) group, floor group, call, factorial}, R-start over every token that may or may not start a product '
+    bounds = dict(layer='P: the five real parsers over template token streams  <context> L R-start t1..tm : L in {number, ( ) group, floor group, call (also `avg()` and two-argument calls, shorter tails), factorial}, R-start over every token that may or may not start a product '
                         '(brackets, function names, number, pi, e, @, superscript, deg, rad), m = 0..3 (thorough 4) further tokens from {number, brackets, ^, superscript, !, *}; contexts: none, after `N op` for every binary operator, after a prefix sign, after `N ^`, inside an argument list',
                   configurations=['overflow-checks=on'] + (['overflow-checks=off'] if ctx.tier == 'thorough' else []))
     outside = ['longer right factors / deeper nesting than the templates', 'three juxtaposed factors A B C are grouped A*(B*C): the statement fixes A*(R) with R = B and its suffixes; this reading is shared by the reference']
